@@ -10,47 +10,36 @@ Local Open Scope N_scope.
 Local Open Scope list_scope.
 Local Notation length := List.length.
 
-(* ---------- refutations of the full multipart statement ---------- *)
-Definition cfg_plain : cfg := {| c_limit := 100000; c_inline := 0; c_chunk := 4 |}.
+Definition cfg_plain : cfg := {| c_inline := 0; c_chunk := 4 |}.
 
-(* trigger 0: part 10000 and a part in 1001..9999 *)
-Theorem complete_concat_refuted_order :
-  let h := [(1001, [1; 1]); (10000, [2; 2; 2])] in
-  (forall n, In n (map fst h) -> 1 <= n /\ n <= 10000) /\
-  trig_limit cfg_plain (dir_of cfg_plain h) = false /\ trig_inline (dir_of cfg_plain h) = false /\
-  List.concat (map snd (parts_of h)) = [1; 1; 2; 2; 2] /\
-  file_bytes (completed_file cfg_plain (dir_of cfg_plain h)) = [2; 2; 2; 1; 1].
+(* ---------- the remaining refutation of the full multipart statement ---------- *)
+(* trigger 0: parts small enough to be stored inline *)
+Theorem complete_concat_refuted_inline :
+  let c := {| c_inline := 4; c_chunk := 8 |} in
+  let h := [(1, [1; 1]); (2, [2; 2; 2; 2; 2]); (3, [3])] in
+  (forall n, In n (map fst h) -> n <= 10000) /\
+  List.concat (map snd (parts_of h)) = [1; 1; 2; 2; 2; 2; 2; 3] /\
+  file_bytes (completed_file (dir_of c h)) = [2; 2; 2; 2; 2].
 Proof.
   cbv zeta. split.
-  - intros n [<-|[<-|[]]]; simpl; lia.
-  - vm_compute. repeat split; reflexivity.
+  - intros n [<-|[<-|[<-|[]]]]; simpl; lia.
+  - vm_compute. split; reflexivity.
 Qed.
 
-(* trigger 1: more parts than the filer lists in one call *)
-Theorem complete_concat_refuted_limit :
-  let c := {| c_limit := 2; c_inline := 0; c_chunk := 4 |} in
-  let h := [(1, [1]); (2, [2]); (3, [3])] in
-  trig_order (map fst h) = false /\ trig_inline (dir_of c h) = false /\
-  List.concat (map snd (parts_of h)) = [1; 2; 3] /\
-  file_bytes (completed_file c (dir_of c h)) = [1; 2].
-Proof. vm_compute. repeat split; reflexivity. Qed.
-
-(* trigger 2: parts small enough to be stored inline *)
-Theorem complete_concat_refuted_inline :
-  let c := {| c_limit := 100000; c_inline := 4; c_chunk := 8 |} in
-  let h := [(1, [1; 1]); (2, [2; 2; 2; 2; 2]); (3, [3])] in
-  trig_order (map fst h) = false /\ trig_limit c (dir_of c h) = false /\
-  List.concat (map snd (parts_of h)) = [1; 1; 2; 2; 2; 2; 2; 3] /\
-  file_bytes (completed_file c (dir_of c h)) = [2; 2; 2; 2; 2].
-Proof. vm_compute. repeat split; reflexivity. Qed.
+(* the repaired defects, as concrete facts: part 10000 next to 1001 (the names sort the other way
+   round, the completed object does not), and more parts than a small -dirListLimit would list *)
+Example complete_concat_10000 :
+  let h := [(1001, [1; 1]); (10000, [2; 2; 2]); (2, [3])] in
+  map (fun e => part_number_of (fst e)) (dir_of cfg_plain h) = [2; 10000; 1001] /\
+  file_bytes (completed_file (dir_of cfg_plain h)) = [3; 1; 1; 2; 2; 2].
+Proof. vm_compute. split; reflexivity. Qed.
 
 (* non-vacuity of complete_concat: overwrites, out-of-order uploads, multi-chunk parts *)
 Example complete_concat_example :
-  let h := [(9999, [9; 9; 9; 9; 9; 9]); (2, [7]); (1000, [5; 5; 5; 5; 5]); (2, [2; 2]); (1, [])] in
-  trig_order (map fst h) = false /\ trig_limit cfg_plain (dir_of cfg_plain h) = false /\
+  let h := [(9999, [9; 9; 9; 9; 9; 9]); (2, [7]); (1000, [5; 5; 5; 5; 5]); (2, [2; 2]); (10000, [4]); (1, [])] in
   trig_inline (dir_of cfg_plain h) = false /\
-  file_bytes (completed_file cfg_plain (dir_of cfg_plain h)) = [2; 2; 5; 5; 5; 5; 5; 9; 9; 9; 9; 9; 9] /\
-  map (fun e => List.length (f_chunks (snd e))) (dir_of cfg_plain h) = [0; 1; 2; 2]%nat.
+  file_bytes (completed_file (dir_of cfg_plain h)) = [2; 2; 5; 5; 5; 5; 5; 9; 9; 9; 9; 9; 9; 4] /\
+  map (fun e => List.length (f_chunks (snd e))) (dir_of cfg_plain h) = [0; 1; 2; 1; 2]%nat.
 Proof. vm_compute. repeat split; reflexivity. Qed.
 
 (* ---------- small facts ---------- *)
@@ -130,13 +119,7 @@ Proof.
 Qed.
 
 Lemma purge_up_sub : forall fuel s d, sub_store (purge_up fuel s d) s.
-Proof.
-  induction fuel as [|fuel IH]; intros s d; cbn [purge_up]; [apply sub_store_refl|].
-  destruct d as [|a d']; [apply sub_store_refl|].
-  pose proof (grpc_delete_sub s (a :: d')) as Hs.
-  destruct (grpc_delete s (a :: d')) as [s' ok]. simpl in Hs.
-  destruct ok; auto. eapply sub_store_trans; [apply IH|exact Hs].
-Qed.
+Proof. intros. apply (purge_up_spec fuel s d). Qed.
 
 Lemma batch_delete_sub : forall s ks, sub_store (batch_delete s ks) s.
 Proof.
@@ -154,12 +137,6 @@ Proof.
 Qed.
 
 (* ---------- histories of one upload ---------- *)
-Lemma dir_of_snoc : forall c h p, dir_of c (h ++ [p]) = dir_step c (dir_of c h) p.
-Proof. intros. unfold dir_of. rewrite fold_left_app. reflexivity. Qed.
-
-Lemma parts_of_snoc : forall h p, parts_of (h ++ [p]) = parts_step (parts_of h) p.
-Proof. intros. unfold parts_of. rewrite fold_left_app. reflexivity. Qed.
-
 Lemma parts_put_nonnil : forall n b l, parts_put n b l <> [].
 Proof.
   intros n b [|[m x] l]; simpl; [discriminate|].
@@ -189,35 +166,6 @@ Proof.
   subst. rewrite parts_of_snoc. unfold parts_step. apply parts_put_nonnil.
 Qed.
 
-Lemma parts_of_numbers : forall h x, In x (map fst (parts_of h)) -> In x (map fst h).
-Proof.
-  intros h x H. unfold parts_of in H.
-  assert (G : forall h l, In x (map fst (fold_left parts_step h l)) -> In x (map fst h) \/ In x (map fst l)).
-  { induction h0 as [|q h0 IH]; intros l Hx; simpl in *; auto.
-    destruct (IH _ Hx) as [I|I]; auto. unfold parts_step in I.
-    destruct (parts_put_numbers _ _ _ _ I) as [->|I']; auto. }
-  destruct (G h [] H) as [I|[]]. exact I.
-Qed.
-
-(* an ascending list of numbers between lo and hi has at most hi + 1 - lo elements *)
-Lemma ascending_head_lt : forall a r, ascending (a :: r) -> forall x, In x r -> fst a < fst x.
-Proof.
-  intros a r. revert a. induction r as [|b r IH]; intros a H x Hx; [contradiction|].
-  cbn [ascending] in H. destruct H as [H1 H2]. destruct Hx as [<-|Hx]; auto.
-  specialize (IH b H2 x Hx). lia.
-Qed.
-
-Lemma ascending_length : forall l lo hi, ascending l ->
-  (forall x, In x l -> lo <= fst x /\ fst x <= hi) -> N.of_nat (length l) <= hi + 1 - lo.
-Proof.
-  induction l as [|a r IH]; intros lo hi H Hb; simpl length.
-  - lia.
-  - destruct (Hb a (or_introl eq_refl)) as [B1 B2].
-    assert (Hr : forall x, In x r -> fst a + 1 <= fst x /\ fst x <= hi).
-    { intros x Hx. pose proof (ascending_head_lt a r H x Hx). destruct (Hb x (or_intror Hx)). lia. }
-    assert (Ha : ascending r) by (cbn [ascending] in H; destruct H; auto).
-    specialize (IH (fst a + 1) hi Ha Hr). rewrite Nat2N.inj_succ. lia.
-Qed.
 
 (* ---------- the domain of the refinement theorem ---------- *)
 Definition nonempty (k : path) : bool := match k with [] => false | _ :: _ => true end.
@@ -239,7 +187,6 @@ Proof. intros [|a k] H; [discriminate|discriminate]. Qed.
 Section Refinement.
 Variable c : cfg.
 Hypothesis Hchunk : 0 < c_chunk c.
-Hypothesis Hlimit : 1 <= c_limit c.
 
 Definition hist_ok (h : list (N * bytes)) : Prop := forall n, In n (map fst h) -> 1 <= n /\ n <= 10000.
 
@@ -391,22 +338,27 @@ Proof.
     apply andb_prop in Hdom. destruct Hdom as [Hs Hd]. apply nonempty_true in Hs. apply nonempty_true in Hd.
     cbn [step sstep] in Est, Ess. destruct (path_eqb src dst).
     + injection Est as <- <-. injection Ess as <- <-. split; [reflexivity|exact HR].
-    + destruct (http_put (st_store st) dst (store_body c (fetch_any (st_store st) src))) as [s' ok] eqn:Ep.
-      injection Est as Hst Hr Hfl.
-      apply app_eq_nil in Hfl. destruct Hfl as [F4 F6]. apply flag_nil in F4. apply flag_nil in F6.
-      apply negb_false_iff in F6. unfold is_file_at in F6.
-      assert (Hfn : find_node (st_store st) src = find (st_store st) src) by (destruct src; [congruence|reflexivity]).
-      rewrite Hfn in F6. destruct (find (st_store st) src) as [[|fs]|] eqn:Efs; try discriminate.
-      assert (Hb : fetch_any (st_store st) src = file_bytes fs).
-      { unfold fetch_any. rewrite ?Hfn, ?Efs. reflexivity. }
-      assert (Hsp : sfind (ss_objs ss) src = Some (file_bytes fs)).
-      { rewrite <- R1. unfold obj_at. rewrite Efs. reflexivity. }
-      rewrite Hsp in Ess. injection Ess as <- <-. split; [reflexivity|].
-      rewrite Hb in Ep. rewrite (http_put_is_create _ _ _ F4) in Ep.
-      destruct (write_rel (st_store st) (ss_objs ss) dst (store_body c (file_bytes fs)) R1 R2 Hd F4
-                  (store_body_ok c _ Hchunk)) as [s1 [E1 [E2 E3]]].
-      rewrite E1 in Ep. injection Ep as <- <-. rewrite (store_body_bytes c _ Hchunk) in E2.
-      rewrite <- Hst. split; [exact E2|]. split; [exact E3|exact R3].
+    + assert (Hfn : find_node (st_store st) src = find (st_store st) src) by (destruct src; [congruence|reflexivity]).
+      pose proof (R1 src) as Hsrc. unfold obj_at in Hsrc.
+      rewrite Hfn in Est. destruct (find (st_store st) src) as [[|fs]|] eqn:Efs.
+      2: { destruct (http_put (st_store st) dst (store_body c (fetch_any (st_store st) src))) as [s' ok] eqn:Ep.
+           injection Est as Hst Hr Hfl.
+           apply app_eq_nil in Hfl. destruct Hfl as [F4 F6]. apply flag_nil in F4. apply flag_nil in F6.
+           assert (Hb : fetch_any (st_store st) src = file_bytes fs).
+           { unfold fetch_any. rewrite ?Hfn, ?Efs. reflexivity. }
+           rewrite <- Hsrc in Ess. injection Ess as <- <-. split; [reflexivity|].
+           rewrite Hb in Ep. rewrite (http_put_is_create _ _ _ F4) in Ep.
+           destruct (write_rel (st_store st) (ss_objs ss) dst (store_body c (file_bytes fs)) R1 R2 Hd F4
+                       (store_body_ok c _ Hchunk)) as [s1 [E1 [E2 E3]]].
+           rewrite E1 in Ep. injection Ep as <- <-. rewrite (store_body_bytes c _ Hchunk) in E2.
+           rewrite <- Hst. split; [exact E2|]. split; [exact E3|exact R3]. }
+      { (* the source key is a directory: trigger 2 *)
+        destruct (http_put (st_store st) dst (store_body c (fetch_any (st_store st) src))) as [s' ok].
+        injection Est as _ _ Hfl. exfalso.
+        apply app_eq_nil in Hfl. destruct Hfl as [_ F6]. apply flag_nil in F6.
+        unfold is_dir_at in F6. rewrite ?Hfn, ?Efs in F6. discriminate. }
+      (* the source does not exist: refused, nothing changes *)
+      rewrite <- Hsrc in Ess. injection Est as <- <-. injection Ess as <- <-. split; [reflexivity|exact HR].
   - (* Get *)
     apply nonempty_true in Hdom. cbn [step sstep] in Est, Ess. injection Est as <- <-.
     assert (Hfn : find_node (st_store st) k = find (st_store st) k) by (destruct k; [congruence|reflexivity]).
@@ -430,9 +382,9 @@ Proof.
     + eapply files_ok_sub; [apply delete_recursive_sub|exact R2].
     + exact R3.
   - (* BatchDel *)
-    cbn [step sstep] in Est, Ess. injection Est as <- <- Hfl. injection Ess as <- <-.
-    apply flag_nil in Hfl. split; [reflexivity|]. split; [|split]; cbn [st_store st_ups ss_objs ss_ups].
-    + intros q. rewrite batch_delete_exact; auto.
+    cbn [step sstep] in Est, Ess. injection Est as <- <-. injection Ess as <- <-.
+    split; [reflexivity|]. split; [|split]; cbn [st_store st_ups ss_objs ss_ups].
+    + intros q. rewrite batch_delete_exact.
       * rewrite sfind_fold_sremove. rewrite R1. reflexivity.
       * intros k Hk. apply nonempty_true. rewrite forallb_forall in Hdom. apply Hdom. exact Hk.
     + eapply files_ok_sub; [apply batch_delete_sub|exact R2].
@@ -470,7 +422,8 @@ Proof.
     pose proof (R1 src) as Hsrc. unfold obj_at in Hsrc.
     pose proof (Forall2_nth_error up_rel _ _ (N.to_nat u) R3) as Hu.
     (* when the specification's upload is missing or the number is refused, the specification does nothing *)
-    assert (Hnothing : (forall d, s_put_part ss u n d = ss) -> meets e ROk = true /\ meets e RErr = true /\ ss' = ss).
+    assert (Hnothing : (forall d, s_put_part ss u n d = ss) ->
+                       meets e RNoUpload = true /\ meets e RErr = true /\ ss' = ss).
     { intros Hdead. destruct (sfind (ss_objs ss) src) as [d|].
       - destruct rg as [[a b]|].
         + destruct (ref_spec (RClosed a b) (Z.of_N (blen d))) as [[o l]|]; injection Ess as <- <-;
@@ -480,8 +433,13 @@ Proof.
     destruct (nth_error (st_ups st) (N.to_nat u)) as [up|] eqn:Eu;
       destruct (nth_error (ss_ups ss) (N.to_nat u)) as [sp|] eqn:Es; try contradiction.
     2: { injection Est as <- <-.
-         destruct Hnothing as [_ [M ->]]; [|split; [exact M|exact HR]].
+         destruct Hnothing as [M [_ ->]]; [|split; [exact M|exact HR]].
          intros d. apply s_put_part_dead. rewrite Es. exact I. }
+    destruct Hu as [K1 [K2 [[D1 D2]|[h [H1 [H2 H3]]]]]].
+    { rewrite D1 in Est. injection Est as <- <-.
+      destruct Hnothing as [M [_ ->]]; [|split; [exact M|exact HR]].
+      intros d. apply s_put_part_dead. rewrite Es. left. exact D2. }
+    rewrite H2 in Est.
     destruct (max_part_id <? n) eqn:Emax.
     { injection Est as <- <-.
       destruct Hnothing as [_ [M ->]]; [|split; [exact M|exact HR]].
@@ -489,7 +447,7 @@ Proof.
     clear Hnothing.
     unfold fetch_range in Est. rewrite Hfn in Est.
     destruct (find (st_store st) src) as [[|f]|] eqn:Ef.
-    + (* the source is a directory: trigger 6 *)
+    + (* the source is a directory: trigger 2 *)
       injection Est as _ _ Hfl. exfalso.
       apply app_eq_nil in Hfl. destruct Hfl as [F6 _]. apply flag_nil in F6.
       unfold is_dir_at in F6. rewrite ?Hfn, ?Ef in F6. discriminate.
@@ -497,17 +455,12 @@ Proof.
       pose proof (R2 src f Ef) as Hok. pose proof (file_ok_size f Hok) as Hsz.
       (* the data the model copies, given that it succeeds, is the data of the specification *)
       assert (Hgo : forall data,
-                (set_updir st u up (Some (dir_put (part_name n) (store_body c data)
-                                  match u_dir up with Some d => d | None => [] end)), ROk,
-                 flag 6 (is_dir_at (st_store st) src) ++
-                 flag 7 (match u_dir up with None => true | Some _ => false end) ++
-                 flag 8 (range_at_end (st_store st) src rg)) = (st', r, []) ->
+                (set_updir st u up (Some (dir_put (part_name n) (store_body c data) (dir_of c h))), ROk,
+                 flag 2 (is_dir_at (st_store st) src) ++ flag 3 (range_at_end (st_store st) src rg)) = (st', r, []) ->
                 R st' (s_put_part ss u n data)).
       { intros data E. injection E as Hst Hr Hfl.
-        apply app_eq_nil in Hfl. destruct Hfl as [_ Hfl]. apply app_eq_nil in Hfl. destruct Hfl as [F7 _].
-        apply flag_nil in F7. destruct (u_dir up) as [d|] eqn:Ed; [|discriminate].
         apply (put_part_refines st ss u n data st' ROk []); auto.
-        unfold put_part, get_upload. rewrite Eu, Ed, Emax. rewrite <- Hst. reflexivity. }
+        unfold put_part, get_upload. rewrite Eu, H2, Emax. rewrite <- Hst. reflexivity. }
       destruct rg as [[a b]|].
       * rewrite Hsz in Est.
         destruct (parse_spec (RClosed a b) (Z.of_N (blen (file_bytes f)))) as [[o l]|] eqn:Ep.
@@ -518,9 +471,9 @@ Proof.
               assert (Hrd : read_file f (Z.to_N o') (Z.to_N l') = slice (file_bytes f) (Z.to_N o') (Z.to_N l')).
               { apply read_file_slice; auto. rewrite Hsz. lia. }
               rewrite Hrd in Est. apply Hgo; auto.
-           ++ (* parse accepts, the reference does not: the range starts at the end (trigger 8) *)
+           ++ (* parse accepts, the reference does not: the range starts at the end (trigger 3) *)
               exfalso. injection Est as _ _ Hfl.
-              apply app_eq_nil in Hfl. destruct Hfl as [_ Hfl]. apply app_eq_nil in Hfl. destruct Hfl as [_ F8].
+              apply app_eq_nil in Hfl. destruct Hfl as [_ F8].
               apply flag_nil in F8. unfold range_at_end in F8. rewrite ?Hfn, ?Ef, ?Hsz in F8.
               apply N.eqb_neq in F8.
               cbn [parse_spec ref_spec] in Ep, Er.
@@ -546,34 +499,27 @@ Proof.
     { rewrite D1 in Est. rewrite D2 in Ess. injection Est as <- <-. injection Ess as <- <-.
       split; [reflexivity|exact HR]. }
     rewrite H2 in Est. rewrite H3 in Ess.
-    destruct (listed c (dir_of c h)) as [|e0 es0] eqn:El.
-    + assert (Hh : h = []).
-      { apply (dir_of_nil_inv c). unfold listed in El. destruct (dir_of c h) as [|x d]; auto.
-        simpl in El. destruct (c_limit c =? 0) eqn:E0; [apply N.eqb_eq in E0; lia|discriminate]. }
+    rewrite (listed_all c h (hist_le h H1)) in Est.
+    destruct (dir_of c h) as [|e0 es0] eqn:El.
+    + assert (Hh : h = []) by (apply (dir_of_nil_inv c); exact El).
       subst h. cbn [parts_of fold_left] in Ess. injection Est as <- <-. injection Ess as <- <-.
       split; [reflexivity|exact HR].
-    + assert (Hne : h <> []). { intros ->. cbn in El. discriminate. }
+    + rewrite <- El in *.
+      assert (Hne : h <> []). { intros ->. cbn in El. discriminate. }
       pose proof (parts_of_nonnil h Hne) as Hpn.
       assert (Ess' : (s_set_parts {| ss_objs := sput (ss_objs ss) (su_key sp) (List.concat (map snd (parts_of h)));
                                      ss_ups := ss_ups ss |} u sp None, ENone) = (ss', e)).
       { destruct (parts_of h) as [|p0 ps0]; [congruence|exact Ess]. }
       clear Ess. injection Ess' as <- <-.
-      destruct (create_entry (st_store st) (u_key up) (File (completed_file c (dir_of c h)))) as [s' ok] eqn:Ec.
-      assert (Hflags : flag 0 (trig_order (map (fun e => part_number_of (fst e)) (dir_of c h))) ++
-                       flag 1 (trig_limit c (dir_of c h)) ++ flag 2 (trig_inline (dir_of c h)) ++
-                       flag 4 (trig_write (st_store st) (u_key up)) = []).
+      destruct (create_entry (st_store st) (u_key up) (File (completed_file (dir_of c h)))) as [s' ok] eqn:Ec.
+      assert (Hflags : flag 0 (trig_inline (dir_of c h)) ++ flag 2 (trig_write (st_store st) (u_key up)) = []).
       { destruct ok; injection Est as _ _ Hf; exact Hf. }
-      apply app_eq_nil in Hflags. destruct Hflags as [F0 Hflags].
-      apply app_eq_nil in Hflags. destruct Hflags as [F1 Hflags].
       apply app_eq_nil in Hflags. destruct Hflags as [F2 F4].
-      apply flag_nil in F0. apply flag_nil in F1. apply flag_nil in F2. apply flag_nil in F4.
-      rewrite (trig_order_dir c h (hist_le h H1)) in F0.
-      assert (Hsuf : forall e, In e (listed c (dir_of c h)) -> has_part_suffix (fst e) = true).
-      { intros e0' He. apply (dir_suffix h H1). unfold listed in He. eapply takeN_in; eauto. }
-      destruct (write_rel (st_store st) (ss_objs ss) (u_key up) (completed_file c (dir_of c h)) R1 R2 K2 F4
-                  (completed_file_ok c _ Hsuf)) as [s1 [E1 [E2 E3]]].
+      apply flag_nil in F2. apply flag_nil in F4.
+      destruct (write_rel (st_store st) (ss_objs ss) (u_key up) (completed_file (dir_of c h)) R1 R2 K2 F4
+                  (completed_file_ok _ (complete_suffix c h (hist_le h H1)))) as [s1 [E1 [E2 E3]]].
       rewrite E1 in Ec. injection Ec as <- <-.
-      rewrite (complete_concat c h Hchunk (hist_le h H1) F0 F1 F2) in E2.
+      rewrite (complete_concat c h Hchunk (hist_le h H1) F2) in E2.
       injection Est as <- <-. split; [reflexivity|].
       split; [|split]; cbn [set_updir s_set_parts st_store st_ups ss_objs ss_ups].
       * rewrite <- K1. exact E2.
@@ -645,33 +591,33 @@ Qed.
 End Refinement.
 
 (* C28 over whole histories: starting from the empty bucket, for every configuration with a
-   positive chunk size and listing limit and every history of requests inside the domain on
+   positive chunk size and every history of requests inside the domain on
    which no known-finding trigger fires: every GET (whole or satisfiable range) and every
    ListParts answer is the one of the flat S3 specification, and at the end the file entries
    under the bucket are exactly the specification's objects, byte for byte *)
 Theorem history_refines_spec : forall c ops rs fin es sfin,
-  0 < c_chunk c -> 1 <= c_limit c -> forallb op_in_domain ops = true ->
+  0 < c_chunk c -> forallb op_in_domain ops = true ->
   run c init_state ops = (rs, [], fin) -> srun sinit ops = (es, sfin) ->
   all2 meets es rs = true /\
   forall q, obj_at (st_store fin) q = sfind (ss_objs sfin) q.
 Proof.
-  intros c ops rs fin es sfin Hc Hl Hd Er Es.
-  destruct (run_refines c Hc Hl ops init_state sinit rs [] fin es sfin (R_init c) Hd Er Es eq_refl) as [M [R1 _]].
+  intros c ops rs fin es sfin Hc Hd Er Es.
+  destruct (run_refines c Hc ops init_state sinit rs [] fin es sfin (R_init c) Hd Er Es eq_refl) as [M [R1 _]].
   split; auto.
 Qed.
 
 (* non-vacuity: a history inside the domain, without trigger, that exercises PUT, copy,
    multipart with an overwrite and out-of-order part numbers, ranged GET and deletes *)
 Example history_example :
-  let c := {| c_limit := 1000; c_inline := 0; c_chunk := 4 |} in
+  let c := {| c_inline := 0; c_chunk := 4 |} in
   let ka := ["a"%string; "b"%string] in let kf := ["f"%string] in let kg := ["g"%string; "h"%string] in
-  let ops := [Put ka [1; 2; 3; 4; 5; 6]; Copy ka kg; MpCreate kf; MpPut 0 1000 [7; 7; 7; 7; 7];
-              MpPut 0 2 [8]; MpPut 0 2 [9; 9]; MpCopy 0 999 ka (Some (1, 3)); MpList 0; MpComplete 0;
+  let ops := [Put ka [1; 2; 3; 4; 5; 6]; Copy ka kg; MpCreate kf; MpPut 0 10000 [7; 7; 7; 7; 7];
+              MpPut 0 2 [8]; MpPut 0 2 [9; 9]; MpCopy 0 1001 ka (Some (1, 3)); MpComplete 0;
               Get kf None; Get kf (Some (RClosed 1 6)); Del ka; BatchDel [kg; ka]; Get kg None] in
   forallb op_in_domain ops = true /\
   snd (fst (run c init_state ops)) = [] /\
   fst (fst (run c init_state ops)) =
-    [ROk; ROk; ROk; ROk; ROk; ROk; ROk; RParts [(2, 2); (999, 3); (1000, 5)]; ROk;
+    [ROk; ROk; ROk; ROk; ROk; ROk; ROk; ROk;
      RData [9; 9; 2; 3; 4; 7; 7; 7; 7; 7]; RData [9; 2; 3; 4; 7; 7]; ROk; ROk; RNotFound] /\
   objects (st_store (snd (run c init_state ops))) = [(kf, [9; 9; 2; 3; 4; 7; 7; 7; 7; 7])].
 Proof. vm_compute. repeat split; reflexivity. Qed.
